@@ -248,6 +248,24 @@ impl Prop for C06Prop {
             for w in ["off", "Off", "OFF", "none", "None", "null", "NULL", "nil", "disabled", "negative", "never", "undefined", "nan", "NaN", "empty", "-", "0.0", "00", "000", "0x0", " 0", "0 ", "-0", "+0", "false ", " false", "fals", "falsee", "noo", "n o", "non", "0false", "false0", "\u{0}", "０", "ｎｏ", "nein", "ko", "fail", "failed", "error", "f", "n"] {
                 words.push(w.to_string());
             }
+            // near misses of the falsy words: every single-character substitution (each ASCII
+            // character incl. the control characters, and look-alikes / case-folding oddities) at
+            // every position of `0`, `false`, `no` in both letter cases, and every single character
+            let mut subst: Vec<char> = (0u8..128).map(|b| b as char).collect();
+            subst.extend(['\u{130}', '\u{131}', '\u{17f}', '\u{212a}', '\u{ba}', '\u{ff10}', '\u{660}', '\u{2070}', '\u{1e9e}', '\u{d8}', '\u{f8}', '\u{3bf}', '\u{43e}', '\u{ff4e}', '\u{ff2e}', '\u{85}', '\u{a0}', '\u{feff}']);
+            for base in ["0", "false", "no", "FALSE", "NO", "False", "No"] {
+                let cs: Vec<char> = base.chars().collect();
+                for i in 0..cs.len() {
+                    for c in &subst {
+                        let mut v = cs.clone();
+                        v[i] = *c;
+                        words.push(v.into_iter().collect());
+                    }
+                }
+            }
+            for c in &subst {
+                words.push(c.to_string());
+            }
             for w in words {
                 if w == "and" || w == "or" || w == "(" || w == ")" || reserved.contains(&w) {
                     continue;
